@@ -23,11 +23,18 @@ R, I = z3.RealSort(), z3.IntSort()
 def run(chk):
     chk.trust("dependency contract: xnp.svd(M, full_matrices=True) = (U, s, V) with M = sum_c s_c u_c v_c^H over c < min(m, n), U (m x m) and V (n x n) unitary, s >= 0")
     chk.assume("U Sigma V^H = A for the DenseSVD rule follows from the pairing/bijection obligations by reordering a finite sum (argument outside the solver)")
-    chk.assume("svd(Diagonal) and the Lanczos svd rule (orthonormal factors, best rank-k approximation) are covered only by bounded stand-ins on the real code")
+    chk.assume("Lanczos svd rule: orthonormal factors, non-negative Sigma and U Sigma V^H = projection of A on the selected singular subspace are PROVED (finite-sum algebra, "
+               "sympy back end) from the callee contract of lanczos_eigs on the Gram matrix; that this projection is the best rank-k approximation is Eckart-Young (ASSUMED); "
+               "svd(Diagonal) is covered only by a bounded stand-in")
     tasks = [("dense", sh) for sh in ("tall", "wide", "square")] + [("identity", "square")]
     chk.under_contract("cola.linalg.svd.svd.svd[LinearOperator,DenseSVD]")
     chk.under_contract("cola.linalg.svd.svd.svd[Identity,Algorithm]")
     for obs in pmap(lambda i: one(*tasks[i]), len(tasks)):
+        for ob in obs:
+            chk.add(ob)
+    ltasks = [(dt, sh) for dt in ("real", "complex") for sh in ("tall", "wide", "square")]
+    chk.under_contract("cola.linalg.svd.svd.svd[LinearOperator,Lanczos]")
+    for obs in pmap(lambda i: lanczos_svd_one(*ltasks[i]), len(ltasks)):
         for ob in obs:
             chk.add(ob)
     bounded(chk)
@@ -167,3 +174,178 @@ def bounded(chk):
             ob.witness = dict(engine="SVD-BOUNDED", rule=rule)
         chk.add(ob)
         chk.under_contract(f"cola.linalg.svd.svd.{fn}", how="bounded stand-in (not proved)")
+
+
+# ------------------------------------------------------------------------------------------------ Lanczos svd rule: proof by finite-sum algebra
+def op_from_entries(label, rows, cols, entry, dtype):
+    """abstract operator whose matrix entries are given by a Python function of the index terms (used for A^H with entries conj(a(c, r)) written out)"""
+    from cola.ops.operator_base import LinearOperator
+
+    def matmat(X):
+        def fn(r, c):
+            v = idx.fresh_idx("j")
+            return idx.eliminate(v, 0, cols, [Ent(e.conds, idx._mulv(entry(r, v), e.val), e.sums, e.zf) for e in X.fn(v, c)])
+        return IArr((rows, X.shape[1]), fn, np.promote_types(dtype, X.dtype))
+    op = LinearOperator(np.dtype(dtype), (rows, cols), matmat=matmat)
+    op._vc_entry_fn = entry
+    return op
+
+
+def lanczos_svd_one(dt, shape):
+    """svd(A, k, 'LM', Lanczos) proved from the real rule (finite-sum algebra, vcgen/symalg.py):
+       callee contract of lanczos_eigs(G): G W = W diag(w) with W unitary, w ascending and positive (full rank); obligation: G is A^H A (tall / square) or A A^H (wide).
+       conclusions: the factor computed from the other one has orthonormal columns; the sliced eigenvector factor has orthonormal columns; Sigma >= 0;
+                    U Sigma V^H = A V_k V_k^H (tall) / U_k U_k^H A (wide): the projection of A on the selected singular subspace (best rank-k by Eckart-Young, ASSUMED)."""
+    import importlib
+    import sympy as sp
+    from contracts.generic import Contract
+    from props import krylov_common as K
+    from props.c10 import fresh_spectrum
+    from vcgen import kidx, symalg
+    from vcgen.kidx import one
+    from vcgen.rules import sym_dim
+    from cola.ops import operators as O
+    from cola.linalg.decompositions.decompositions import Lanczos
+    dtype = np.float64 if dt == "real" else np.complex128
+    cplx = dt == "complex"
+    tall = shape != "wide"
+
+    holder = {}
+
+    def adj_res(X):
+        cj_ = (lambda x: idx.CJ(x)) if cplx else (lambda x: x)
+        if X is holder.get("A"):
+            return holder["AH"]
+        f = X.__dict__.get("_vc_entry")
+        if f is None:
+            f = X.__dict__.get("_vc_entry_fn")
+        if f is None:
+            Xd = X.to_dense()           # any other operand (e.g. the sliced eigenvector factor): entries of its dense form
+            f = lambda r, c: ents_expr(Xd.at(r, c))  # noqa
+        return op_from_entries("XH", X.shape[1], X.shape[0], lambda r, c: cj_(f(c, r)), X.dtype)
+    def tr_res(X):
+        f = X.__dict__.get("_vc_entry")
+        if f is None:
+            f = X.__dict__.get("_vc_entry_fn")
+        if f is None:
+            Xd = X.to_dense()
+            f = lambda r, c: ents_expr(Xd.at(r, c))  # noqa
+        return op_from_entries("XT", X.shape[1], X.shape[0], lambda r, c: f(c, r), X.dtype)
+    contracts = {"adjoint": Contract("adjoint", requires=lambda X: [], result=adj_res, ensures=lambda X, r: []),
+                 "transpose": Contract("transpose", requires=lambda X: [], result=tr_res, ensures=lambda X, r: [])}
+
+    def thunk():
+        m, n = sym_dim("m"), sym_dim("n")
+        if shape == "tall":
+            CTX.assume(n.term < m.term)
+        elif shape == "wide":
+            CTX.assume(m.term < n.term)
+        else:
+            n = m
+        g_dim = n if tall else m           # size of the Gram matrix the rule hands to Lanczos
+        k = SInt(z3.Int(CTX.fresh("k")))
+        CTX.assume(z3.And(k.term >= 1, k.term <= g_dim.term))
+        A, a = idx.make_abstract_op("A", m, n, dtype)
+        cj = (lambda x: idx.CJ(x)) if cplx else (lambda x: x)
+        AH = op_from_entries("AH", n, m, lambda r, c: cj(a(c, r)), dtype)
+        holder.update(A=A, AH=AH)
+        made = {}
+        goals = []
+
+        def lz_stub(G, *args, **kw):
+            p, q = z3.Int(CTX.fresh("p")), z3.Int(CTX.fresh("q"))
+            t = idx.fresh_idx("t")
+            inner_dim = m if tall else n
+            want = idx.SUMF(z3.IntVal(0), inner_dim.term, idx.canon_lambda(t, idx._mulv(cj(a(t, p)), a(t, q)) if tall else idx._mulv(a(p, t), cj(a(q, t)))))
+            Gd = G.to_dense()
+            CTX.require(z3.Implies(z3.And(p >= 0, p < g_dim.term, q >= 0, q < g_dim.term), z3.And(iterm(Gd.shape[0]) == g_dim.term, iterm(Gd.shape[1]) == g_dim.term,
+                                                                                                ents_expr(Gd.at(p, q)) == want)),
+                        "lanczos_eigs is applied to the Gram matrix A^H A (tall, square) / A A^H (wide), entry by entry")
+            s, w_arr, V_arr = fresh_spectrum(g_dim, "gram", real=True, ascending=True, dtype=dtype)
+            Wop, wfn = idx.make_abstract_op("W", g_dim, g_dim, dtype)
+            made.update(sp=s, wfn=wfn)
+            return w_arr, Wop, {}
+
+        def inv_stub(D, alg_=None):
+            if type(D).__name__ != "Diagonal":
+                raise Unsupported("inv of a non-diagonal operator in the svd rule")
+            made["inv_arg"] = D
+            return O.Diagonal(IArr(D.diag.shape, lambda i_: [Ent([], alg.rinv(ents_expr(D.diag.at(i_))))], D.diag.dtype))
+        impl = find_impl("svd", "LinearOperator", "Lanczos")
+        g = impl.__globals__
+        old_l, old_i = g["lanczos_eigs"], g["inv"]
+        g["lanczos_eigs"], g["inv"] = lz_stub, inv_stub
+        try:
+            U, Sg, V = impl(A, k, "LM", Lanczos())
+        finally:
+            g["lanczos_eigs"], g["inv"] = old_l, old_i
+        goals.append(("the inverse taken by the rule is that of Sigma itself", made.get("inv_arg") is Sg))
+        Ud, Vd, sd = U.to_dense(), V.to_dense(), Sg.diag
+        goals.append(("shapes: U is m x k, Sigma k x k, V is n x k", z3.And(iterm(Ud.shape[0]) == m.term, iterm(Ud.shape[1]) == k.term, iterm(sd.shape[0]) == k.term,
+                                                                         iterm(Vd.shape[0]) == n.term, iterm(Vd.shape[1]) == k.term)))
+        i0, j0, r0, c0 = (z3.Int(CTX.fresh(x)) for x in ("i", "j", "r", "c"))
+        CTX.assume(z3.And(i0 >= 0, i0 < k.term, j0 >= 0, j0 < k.term, r0 >= 0, r0 < m.term, c0 >= 0, c0 < n.term))
+        wf = made["sp"].tag
+        goals.append(("Sigma_i = sqrt of the i-th selected eigenvalue of the Gram matrix (non-negative)", ents_expr(sd.at(i0)) == kidx.RSQRT(wf(g_dim.term - k.term + i0))))
+
+        def decide(c_):
+            return alg.implied(CTX.facts(), c_)
+        T = symalg.Translator(cplx, decide, facts=CTX.facts())
+        a_s, W_s, w_s = T.fn(a.name()), T.fn(made["wfn"].name()), T.fn(wf.name())
+        Gram = sp.Function("Gram")
+        i_s, j_s = T.tr(i0), T.tr(j0)
+        sig = lambda x: T.tr(g_dim.term) - T.tr(k.term) + x  # noqa
+
+        pos = 0 if tall else 1              # position of the contracted index in a(., .): rows for A^H A, columns for A A^H
+        # definition: sum_t conj(a(t, X)) a(t, Y) = Gram(X, Y) (tall)  /  sum_t a(X, t) conj(a(Y, t)) = Gram(X, Y) (wide); Gram is Hermitian, real symmetric in the real case
+
+        def gram_result(pa, pb):            # pa: the conjugated factor's args (complex), pb: the other one
+            o1, o2 = pa[1 - pos], pb[1 - pos]
+            if cplx:
+                return [Gram(o1, o2)] if tall else [Gram(o2, o1)]
+            return [Gram(*sorted((o1, o2), key=str))]
+        rule_gram = symalg.pair_rule(a_s, pos, a_s, pos, cplx, gram_result)
+
+        def rule_eig(v, lo, hi, fv):        # callee contract G W = W diag(w):  sum_c Gram(X, c) W(c, B) = w(B) W(X, B)  and its conjugate  sum_c conj(W(c, B)) Gram(c, X) = w(B) conj(W(X, B))
+            if len(fv) != 2:
+                return None
+            for g_, w_ in ((fv[0], fv[1]), (fv[1], fv[0])):
+                if getattr(g_, "func", None) != Gram:
+                    continue
+                pw = symalg.app_of(w_, W_s)
+                if not pw or pw[0][0] != v or pw[0][1].has(v):
+                    continue
+                x_, y_ = g_.args
+                if not cplx:
+                    X = x_ if y_ == v else (y_ if x_ == v else None)
+                    if X is None or X.has(v):
+                        continue
+                    return [w_s(pw[0][1]), W_s(X, pw[0][1])]
+                if not pw[1] and y_ == v and not x_.has(v):
+                    return [w_s(pw[0][1]), W_s(x_, pw[0][1])]
+                if pw[1] and x_ == v and not y_.has(v):
+                    return [w_s(pw[0][1]), sp.conjugate(W_s(y_, pw[0][1]))]
+            return None
+        rule_unit = symalg.pair_rule(W_s, 0, W_s, 0, cplx, lambda pa, pb: [sp.KroneckerDelta(pa[1], pb[1])])    # W unitary
+        RULES = [rule_gram, rule_eig, rule_unit]
+
+        comp, eigf = (Ud, Vd) if tall else (Vd, Ud)      # comp: the factor computed from the other one; eigf: the sliced eigenvector factor
+        col_ = lambda X_, j_: X_[:, SInt(j_)]  # noqa
+        ip = lambda X_, x_, y_: T.tr(ents_expr((ifns.conj(col_(X_, x_)) * col_(X_, y_)).sum(0).at()))  # noqa
+        dist = [(sig(i_s), sig(j_s)), (i_s, j_s)]
+        goals.append(("the computed factor has unit columns: <c_i, c_i> = 1", bool(symalg.zero_after(ip(comp, i0, i0) - 1, RULES)[0])))
+        goals.append(("the computed factor has orthogonal columns: <c_i, c_j> = 0 for i != j", bool(symalg.zero_after(ip(comp, i0, j0), RULES, distinct=dist)[0])))
+        goals.append(("the selected eigenvectors have unit columns", bool(symalg.zero_after(ip(eigf, i0, i0) - 1, RULES)[0])))
+        goals.append(("the selected eigenvectors have orthogonal columns", bool(symalg.zero_after(ip(eigf, i0, j0), RULES, distinct=dist)[0])))
+        # reconstruction: (U Sigma V^H)[r, c] = (A V_k V_k^H)[r, c]  (tall)  /  (U_k U_k^H A)[r, c]  (wide): pure algebra, Sigma cancels
+        Sdiag = IArr((k, 1), lambda i_, z_: sd.fn(i_), sd.dtype)
+        lhs = ((Ud * Sdiag.T) @ ifns.conj(Vd).T)
+        if tall:
+            rhs = (A @ (Vd @ ifns.conj(Vd).T))
+        else:
+            rhs = (Ud @ ifns.conj(Ud).T) @ (A @ IArr.eye(n, dtype))
+        e_rec = T.tr(ents_expr(lhs.at(r0, c0))) - T.tr(ents_expr(rhs.at(r0, c0)))
+        goals.append(("U Sigma V^H = A V_k V_k^H (tall) / U_k U_k^H A (wide): the projection of A on the selected singular subspace", bool(symalg.zero_after(e_rec, [])[0])))
+        return goals
+    return K.run_paths(f"C16/svd[LinearOperator,Lanczos;{dt};{shape}] proof", "cola.linalg.svd.svd.svd", thunk, dict(engine="SVD-BOUNDED", rule="lanczos"), collapse=False,
+                       keep_real=("svd", "dot"), contracts=contracts)
